@@ -394,6 +394,19 @@ def _cross_refs(rep, P, construct, rel, g: CFG, path, muts: List[Mut], where):
     env: Dict[str, tuple] = {}
     events = []       # (kind, tableref, position/index-symbol, value-symbol, node)
 
+    roots: Dict[str, str] = {}       # plain copies of module variables: `to_module = operand`  (re-set when the name is bound to anything else)
+
+    def root(nm: str) -> str:
+        seen_ = set()
+        while nm in roots and nm not in seen_:
+            seen_.add(nm)
+            nm = roots[nm]
+        return nm
+
+    def tref(e):
+        r_ = links.table_ref(e, aliases)
+        return (root(r_[0]), r_[1]) if r_ is not None else None
+
     def sym(e: ast.AST) -> tuple:
         if isinstance(e, ast.Name):
             return env.get(e.id, ("var", e.id))
@@ -407,17 +420,17 @@ def _cross_refs(rep, P, construct, rel, g: CFG, path, muts: List[Mut], where):
         if isinstance(e, ast.Call):
             f = e.func
             if norm(f) == "len" and len(e.args) == 1:
-                r = links.table_ref(e.args[0], aliases)
+                r = tref(e.args[0])
                 if r is not None:
                     return ("len", r, appended.get(r, 0))
             if isinstance(f, ast.Attribute) and f.attr == "index" and len(e.args) == 1:
-                r = links.table_ref(f.value, aliases)
+                r = tref(f.value)
                 if r is not None:
                     return ("index", r, sym(e.args[0]))
                 if norm(f.value) == "self.modules":
-                    return ("modidx", norm(e.args[0]))
+                    return ("modidx", root(norm(e.args[0])))
             if norm(f) == "self.module_index" and len(e.args) == 1:
-                return ("modidx", norm(e.args[0]))
+                return ("modidx", root(norm(e.args[0])))
         if isinstance(e, ast.UnaryOp) and isinstance(e.op, ast.USub) and isinstance(e.operand, ast.Constant):
             return ("const", -e.operand.value)
         if isinstance(e, ast.Constant):
@@ -434,19 +447,23 @@ def _cross_refs(rep, P, construct, rel, g: CFG, path, muts: List[Mut], where):
         if isinstance(st, ast.Assign) and len(st.targets) == 1 and isinstance(st.targets[0], ast.Name):
             r = links.table_ref(st.value, aliases)
             if r is not None:
-                aliases[st.targets[0].id] = r
+                aliases[st.targets[0].id] = (root(r[0]), r[1])
                 continue
+            if isinstance(st.value, ast.Name):
+                roots[st.targets[0].id] = root(st.value.id)
+            else:
+                roots.pop(st.targets[0].id, None)
             env[st.targets[0].id] = sym(st.value)
             continue
         if isinstance(st, ast.Assign):
             for t in st.targets:
                 if isinstance(t, ast.Subscript):
-                    r = links.table_ref(t.value, aliases)
+                    r = tref(t.value)
                     if r is not None:
                         events.append(("setidx", r, sym(t.slice), sym(st.value), st))
         for c in ast.walk(st):
             if isinstance(c, ast.Call) and isinstance(c.func, ast.Attribute) and c.func.attr == "append" and c.args:
-                r = links.table_ref(c.func.value, aliases)
+                r = tref(c.func.value)
                 if r is not None:
                     events.append(("append", r, appended.get(r, 0), sym(c.args[0]), c))
                     appended[r] = appended.get(r, 0) + 1
@@ -460,6 +477,15 @@ def _cross_refs(rep, P, construct, rel, g: CFG, path, muts: List[Mut], where):
         in_l, in_s, out_l, out_s = by["in_links"], by["in_link_slots"], by["out_links"], by["out_link_slots"]
         tgt, src = in_l[1][0], out_l[1][0]
         ok = True
+
+        def unread(v) -> bool:
+            """a value the evaluator could not name (a bare variable / an arbitrary expression) somewhere inside"""
+            if isinstance(v, tuple):
+                return (bool(v) and v[0] in ("var", "expr")) or any(unread(x) for x in v[1:])
+            return False
+        if any(unread(e_[3]) for e_ in (in_l, in_s, out_l, out_s)):
+            rep.inconclusive(f"{P}.R3", construct, text, "a value appended to a link table is not followed to the module index / table length it comes from", where)
+            return
         # values of the link lists: index of the module at the other end
         if in_l[3] != ("modidx", src):
             ok = False
@@ -497,6 +523,13 @@ def _cross_refs(rep, P, construct, rel, g: CFG, path, muts: List[Mut], where):
         ok = True
         want_in = ("index", (tgt, "in_links"), ("modidx", src))
         want_out = ("index", (src, "out_links"), ("modidx", tgt))
+        def unread2(v) -> bool:
+            if isinstance(v, tuple):
+                return (bool(v) and v[0] in ("var", "expr")) or any(unread2(x) for x in v[1:])
+            return False
+        if any(unread2(e_[2]) for e_ in (in_l, in_s, out_l, out_s)):
+            rep.inconclusive(f"{P}.R3", construct, text, "the position at which a link table is blanked is not followed to an index() look-up", where)
+            return
         for e, want, nm in ((in_l, want_in, "in_links"), (in_s, want_in, "in_link_slots"),
                             (out_l, want_out, "out_links"), (out_s, want_out, "out_link_slots")):
             if e[2] != want:
@@ -528,7 +561,10 @@ def _refusal_dominates(repo, rep, P, construct, rel, g: CFG):
             v = n.ast.value
             if isinstance(v, ast.Call) and (norm(v.func) == "self.module_index" or norm(v.func) == "self.modules.index"):
                 lookups.append(n)
-    if len(lookups) < 2:
+    by_arg: Dict[str, List[Node]] = {}
+    for l in lookups:
+        by_arg.setdefault(norm(l.ast.value.args[0]) if l.ast.value.args else "?", []).append(l)
+    if len(by_arg) < 2:
         rep.violation(f"{P}.R4", construct, "; ".join(l.text() for l in lookups) or "module_index look-ups",
                       "both operands must be looked up in this project's module list before any table is touched "
                       "(that look-up is what refuses modules of another project)",
@@ -541,7 +577,8 @@ def _refusal_dominates(repo, rep, P, construct, rel, g: CFG):
         if n.kind == "stmt" and n.ast is not None:
             if links.stmt_muts(n.ast, aliases):
                 mut_nodes.append(n)
-    bad = [m for m in mut_nodes if not all(l.id in dom.get(m.id, set()) for l in lookups)]
+    # every mutation is dominated by a look-up of EACH operand (the look-ups may be written once per branch)
+    bad = [m for m in mut_nodes if not all(any(l.id in dom.get(m.id, set()) for l in ls) for ls in by_arg.values())]
     if bad:
         rep.violation(f"{P}.R4", construct, bad[0].text(),
                       "a link table is mutated on a path that has not yet checked that both modules belong to this project",
